@@ -170,7 +170,7 @@ def observe(ctx, ctxrec, cases, procs):
 # ----------------------------------------------------------------------------------------
 # TLC runs
 # ----------------------------------------------------------------------------------------
-def enumerate_family(ctx, label, fam, nl, step=1, off=0, picks=None, t1=True):
+def enumerate_family(ctx, label, fam, nl, step=1, off=0, picks=None, t1=True, lemma=False):
     """TLC emits one family (and checks the design layer on it). -> (ctxrec, cases)"""
     d = ctx.sub("enum-" + label)
     out = os.path.join(d, "cases.ndjson")
@@ -180,7 +180,7 @@ def enumerate_family(ctx, label, fam, nl, step=1, off=0, picks=None, t1=True):
         pp = os.path.join(d, "picks.ndjson")
         tlc.write_ndjson(pp, picks)
         env["PICKS"] = pp
-    cfg = ENUM_CFG % dict(fam=fam, nl=nl, step=step, off=off) + (T1_INVS if t1 else "")
+    cfg = ENUM_CFG % dict(fam=fam, nl=nl, step=step, off=off) + (T1_INVS if t1 else "") + ("INVARIANT TruthTables\n" if lemma else "")
     res = tlc.run_tlc("NormalFormsEnum", cfg, d, env=env, timeout=3000, coverage=False)
     if res.error:
         raise MachineryError("NormalFormsEnum failed: %s" % res.error)
@@ -199,7 +199,7 @@ def enumerate_family(ctx, label, fam, nl, step=1, off=0, picks=None, t1=True):
             "design level: the mechanism layer of NormalForms violates %s on an enumerated expression" % res.violated,
             {"family": label, "cfg": cfg, "trace": [s["vars"] for s in res.trace]},
         )
-    elif t1 and res.distinct != 1 + min(count, 64) + count:
+    elif (t1 or lemma) and res.distinct != 1 + min(count, 64) + count:
         raise MachineryError("T1 visited %d states for %d cases" % (res.distinct, count))
     for i, c in enumerate(cases):
         c["id"] = "%s:%d" % (label, c["c"])
@@ -315,7 +315,7 @@ def run(ctx):
     procs = 8
     as_written(ctx)
     # every expression of depth <= 1 over all eight leaves, arity <= 3
-    run_family(ctx, "d1", 1, fam="d1", nl=8)
+    run_family(ctx, "d1", 1, fam="d1", nl=8, lemma=True)
     if q:
         # every not / binary operator over B1(5 leaves): depth <= 2
         run_family(ctx, "d2", procs, fam="d2", nl=5)
